@@ -2,9 +2,9 @@ SPECIFICATION Spec
 CONSTANTS
   Faithful = TRUE
   CrossResps <- CoreResps
-  Sides = {"req", "rsp"}
-  FaultReqs <- FaultReqsQ
-  FaultResps <- FaultRespsQ
+  Sides = {"fault"}
+  FaultReqs <- FaultReqsBig
+  FaultResps <- FaultRespsBig
 INVARIANTS TypeOK RelayedUnchanged XffDeviationShape ReturnedUnchanged UpstreamHeaderWins OneCall FailureIsReported FaithfulPresentations OwnAnswerOnly DevsOnlyWhenFaithful
 ACTION_CONSTRAINT Dump
 VIEW View
